@@ -23,12 +23,18 @@ SCALE_RATE = ("PlackettLuce", "BradleyTerryFull", "BradleyTerryPart")
 PREDICTS = ("predict_win", "predict_draw", "predict_rank")
 
 
-def _world(model, sizes, mode, inplace=False):
+def _world(model, sizes, mode, inplace=False, generic=False):
     """(ctx, modelA, modelB, teamsA builder, teamsB builder, k or a).
     inplace: the rescaled model B is an existing model whose mu, sigma, beta, tau attributes were
     multiplied afterwards (the property speaks of 'the model's mu, sigma, beta and tau', not of how
     the model came to have them) - a value derived from beta at construction time would be stale"""
-    S = extract.Scratch(model)
+    if generic:
+        # sizes = (1,)*n: every team has a symbolic number of members (pyvc/teams.py); for the shift
+        # clause all teams share one size symbol ("the same number of players")
+        from .. import teams as T
+        S = T.scratch(model)
+    else:
+        S = extract.Scratch(model)
     game.stub_tm_real(S)
     game.stub_phi_real(S)
     S.ns["_rank_data"] = rank_data_contract
@@ -47,10 +53,26 @@ def _world(model, sizes, mode, inplace=False):
         else:
             k = ctx.real("a")
             mB = S.cls(mu=params["mu"], sigma=params["sigma"], beta=params["beta"], kappa=params["kappa"], tau=params["tau"])
-        base = game.mk_teams(ctx, S, sizes)
-        prior = [[(p.mu, p.sigma) for p in t] for t in base]
+        if generic:
+            shared = z3.Int("L_all") if mode == "shift" else None
+            gbase = [T.SymTeam(ctx, S.rating_cls, i, L=shared) for i in range(len(sizes))]
+            prior = [[(t.g.mu, t.g.sigma)] for t in gbase]
+        else:
+            base = game.mk_teams(ctx, S, sizes)
+            prior = [[(p.mu, p.sigma) for p in t] for t in base]
 
     def teams(which):
+        if generic:
+            import copy as _copy
+            out = []
+            for t0 in gbase:
+                t = _copy.deepcopy(t0)
+                t.root = t
+                if which == "B":
+                    # every member's mu / sigma scaled or shifted: the aggregates follow by linearity (sum_of)
+                    t.g.mu, t.g.sigma = (t.g.mu * k, t.g.sigma * k) if mode == "scale" else (t.g.mu + k, t.g.sigma)
+                out.append(t)
+            return out
         R = S.rating_cls
         out = []
         for i, row in enumerate(prior):
@@ -64,16 +86,28 @@ def _world(model, sizes, mode, inplace=False):
     return ctx, S, mA, mB, teams, k
 
 
-def unit_rate(model, sizes, mode, ranks, inplace=False):
+def unit_rate(model, sizes, mode, ranks, inplace=False, generic=False):
     recs = []
-    shape = f"sizes={sizes},ranks={ranks}" + (",model rescaled in place" if inplace else "")
+    shape = (f"sizes={sizes}" if not generic else f"n={len(sizes)},any-team-size") + f",ranks={ranks}" + (",model rescaled in place" if inplace else "")
     fn = f"{model}.rate"
-    ctx, S, mA, mB, teams, k = _world(model, sizes, mode, inplace)
-    with active(ctx):
-        tA, tB = per_path(teams("A")), per_path(teams("B"))
-        oa = ctx.merged(lambda i: call(mA.rate, tA(i), ranks=list(ranks) if ranks else None))
-        ob = ctx.merged(lambda i: call(mB.rate, tB(i), ranks=list(ranks) if ranks else None))
-    rp = c01._std_replay(model, sizes, ranks, "default", scale_of(model))
+    member = (lambda row, j: row.g) if generic else (lambda row, j: row[j])
+    try:
+        ctx, S, mA, mB, teams, k = _world(model, sizes, mode, inplace, generic)
+        with active(ctx):
+            tA, tB = per_path(teams("A")), per_path(teams("B"))
+            oa = ctx.merged(lambda i: call(mA.rate, tA(i), ranks=list(ranks) if ranks else None))
+            ob = ctx.merged(lambda i: call(mB.rate, tB(i), ranks=list(ranks) if ranks else None))
+    except Exception as e:  # noqa: BLE001
+        from ..symrt import UncutLoop
+        if generic and isinstance(e, UncutLoop):
+            return [driver.rec(f"C16/{model}/rate/{mode}/any-team-size/unbounded-proof@{shape}", "note", "explorer", 0, kind="note", fn=fn, shape=shape, note=f"not attempted: {e}")]
+        raise
+    return _unit_rate_tail(model, sizes, mode, ranks, inplace, generic, shape, fn, member, ctx, k, oa, ob)
+
+
+def _unit_rate_tail(model, sizes, mode, ranks, inplace, generic, shape, fn, member, ctx, k, oa, ob):
+    recs = []
+    rp = c01._std_replay(model, sizes if not generic else (2,) * len(sizes), ranks, "default", scale_of(model))
     rp["kind"] = "c16_rate"
     rp["mode"] = mode
     rp["inplace"] = bool(inplace)
@@ -84,7 +118,7 @@ def unit_rate(model, sizes, mode, ranks, inplace=False):
     t0 = time.time()
     for i in range(len(sizes)):
         for j in range(sizes[i]):
-            a, b = oa[1][i][j], ob[1][i][j]
+            a, b = member(oa[1][i], j), member(ob[1][i], j)
             with active(ctx):
                 if mode == "scale":
                     wm, ws = a.mu * k, a.sigma * k
@@ -96,7 +130,7 @@ def unit_rate(model, sizes, mode, ranks, inplace=False):
                     ok = False
                     notes.append(f"{nm}[{i},{j}] {note}")
     recs.append(field_rec(f"C16/{model}/rate/{mode}@{shape}", ok, "field", "; ".join(notes)[:300], time.time() - t0, fn, shape, rp))
-    if ranks is None and sizes == (1, 1) and not inplace:
+    if ranks is None and sizes == (1, 1) and not inplace and not generic:
         # canary: scaling / shifting only the *ratings* (not as claimed) - "sigma is unchanged by scaling" must fail
         o = P.prove_eq(term(ob[1][0][0].sigma), term(oa[1][0][0].sigma))[0] if mode == "scale" else P.prove_eq(term(ob[1][0][0].mu), term(oa[1][0][0].mu))[0]
         recs.append(driver.rec(f"C16/{model}/rate/{mode}/canary-no-effect@{shape}", "discharged" if o else "refuted", "field", 0, kind="canary", fn=fn, shape=shape,
@@ -104,15 +138,22 @@ def unit_rate(model, sizes, mode, ranks, inplace=False):
     return recs
 
 
-def unit_predict(model, sizes, mode, inplace=False):
+def unit_predict(model, sizes, mode, inplace=False, generic=False):
     recs = []
-    shape = f"sizes={sizes}" + (",model rescaled in place" if inplace else "")
-    ctx, S, mA, mB, teams, k = _world(model, sizes, mode, inplace)
+    shape = (f"sizes={sizes}" if not generic else f"n={len(sizes)},any-team-size") + (",model rescaled in place" if inplace else "")
     res = {}
-    with active(ctx):
-        for op in PREDICTS:
-            tA, tB = per_path(teams("A")), per_path(teams("B"))
-            res[op] = (ctx.merged(lambda i, op=op, tA=tA: call(getattr(mA, op), tA(i))), ctx.merged(lambda i, op=op, tB=tB: call(getattr(mB, op), tB(i))))
+    try:
+        ctx, S, mA, mB, teams, k = _world(model, sizes, mode, inplace, generic)
+        with active(ctx):
+            for op in PREDICTS:
+                tA, tB = per_path(teams("A")), per_path(teams("B"))
+                res[op] = (ctx.merged(lambda i, op=op, tA=tA: call(getattr(mA, op), tA(i))), ctx.merged(lambda i, op=op, tB=tB: call(getattr(mB, op), tB(i))))
+    except Exception as e:  # noqa: BLE001
+        from ..symrt import UncutLoop
+        if generic and isinstance(e, UncutLoop):
+            return [driver.rec(f"C16/{model}/predict/{mode}/any-team-size/unbounded-proof@{shape}", "note", "explorer", 0, kind="note", fn=f"{model}.predict_*", shape=shape,
+                               note=f"not attempted: {e}")]
+        raise
     P = field.Prover(ctx.hyps(), list(ctx.facts.values()))
     for op in PREDICTS:
         oa, ob = res[op]
@@ -152,6 +193,14 @@ def units(tier):
                 us.append(("unit_rate", (m, s, "scale", r)))
             us.append(("unit_rate", (m, (2, 1), "scale", [1, 2], True)))
         us.append(("unit_predict", (m, (1, 1, 1), "scale", True)))
+        # teams of every size (shift: one shared symbolic size)
+        for n in ((2, 3) if tier == "quick" else (2, 3, 4)):
+            rk = [1, 2, 2, 3][:n]
+            if m in SCALE_RATE:
+                us.append(("unit_rate", (m, (1,) * n, "scale", rk, False, True)))
+            us.append(("unit_rate", (m, (1,) * n, "shift", rk, False, True)))
+            us.append(("unit_predict", (m, (1,) * n, "scale", False, True)))
+            us.append(("unit_predict", (m, (1,) * n, "shift", False, True)))
         for s, r in shift_shapes:
             us.append(("unit_rate", (m, s, "shift", r)))
         for s in ([(1, 1), (2, 1), (1, 1, 1)] if tier == "quick" else [(1, 1), (2, 1), (2, 3), (1, 1, 1), (2, 1, 3), (1, 1, 1, 1)]):
